@@ -125,6 +125,9 @@ func runC11(r *core.Run) {
 	}
 	var ts traceSet
 	for i := range obs {
+		if obs[i].Skipped {
+			continue // not executed: the run had already met many calls that do not return
+		}
 		o, op := &obs[i], &ops[i]
 		var desc interface{}
 		var c *bmffCase
